@@ -365,6 +365,12 @@ pub fn gen_c06(rng: &mut Prng, thorough: bool, out: &mut Out) {
                 }
                 l.push_str(" ]");
                 out.case(g1, &format!("agg_from_sigs {}", l));
+                // the trait-level sums that no wrapper calls
+                let bare: Vec<String> = sks.iter().map(|(sk, m)| format!("p{}", hs(&sig_dlog(g1, scheme, sk, m)))).collect();
+                out.case(g1, &format!("trait_aggregate_signatures [ {} ]", bare.join(" ")));
+                out.case(g1, &format!("trait_multi_from_signatures [ {} ]", bare.join(" ")));
+                out.case(g1, &format!("trait_aggregate_signatures [ {} ]", bare[..1].join(" ")));
+                out.case(g1, &format!("trait_multi_from_signatures [ {} {} ]", bare[0], bare[0]));
                 let agg = agg_dlog(g1, scheme, &sks);
                 let v = |out: &mut Out, a: &RScalar, pairs: &[(RScalar, Vec<u8>)]| {
                     out.case(g1, &format!("agg_verify c{} p{} {}", sc, hs(a), pairs_tok(pairs)));
@@ -430,6 +436,8 @@ pub fn gen_c06(rng: &mut Prng, thorough: bool, out: &mut Out) {
             let sk = rng.scalar();
             let sd = sig_dlog(g1, scheme, &sk, b"one");
             out.case(g1, "agg_from_sigs [ ]");
+            out.case(g1, "trait_aggregate_signatures [ ]");
+            out.case(g1, "trait_multi_from_signatures [ ]");
             out.case(g1, &format!("agg_from_sigs [ c{} p{} ]", sc, hs(&sd)));
             let s2 = (scheme + 1) % 3;
             out.case(g1, &format!("agg_from_sigs [ c{} p{} c{} p{} ]", sc, hs(&sd), SCH[s2 as usize], hs(&sd)));
